@@ -13,6 +13,7 @@ import (
 	"path/filepath"
 	"sort"
 	"strings"
+	"time"
 
 	"github.com/MichaelMure/git-bug/repository"
 
@@ -387,6 +388,42 @@ func runSession(n int, seed uint64, gitbug string, steps int) []*Event {
 					return err.Error(), 1
 				}
 				s.attached[b2.Id().String()] = []string{string(lone)}
+				// and files attached by editing: the body of a bug and a later comment get files they did not have, in a commit of their own
+				// and together with another operation; the texts do not mention the files
+				author, err := c.GetUserIdentity()
+				if err != nil {
+					return err.Error(), 1
+				}
+				b3, _, err := c.Bugs().New(fmt.Sprintf("files by edit %d", k), "nothing attached yet")
+				if err != nil {
+					return err.Error(), 1
+				}
+				var es []repository.Hash
+				for j := 0; j < 3; j++ {
+					h, err := c.StoreData([]byte(fmt.Sprintf("attached by an edit %d.%d", k, j)))
+					if err != nil {
+						return err.Error(), 1
+					}
+					es = append(es, h)
+				}
+				body := b3.Snapshot().Comments[0].CombinedId()
+				if _, err = b3.EditCommentWithFilesRaw(author, time.Now().Unix(), body, "now with a file", []repository.Hash{es[0]}, nil); err == nil {
+					err = b3.Commit()
+				}
+				if err != nil {
+					return err.Error(), 1
+				}
+				cid, _, err := b3.AddComment("a comment without files")
+				if err == nil {
+					_, err = b3.EditCommentWithFilesRaw(author, time.Now().Unix(), cid, "a comment with files", []repository.Hash{es[1], es[2]}, nil)
+				}
+				if err == nil {
+					err = b3.Commit()
+				}
+				if err != nil {
+					return err.Error(), 1
+				}
+				s.attached[b3.Id().String()] = []string{string(es[0]), string(es[1]), string(es[2])}
 				return "ok", 0
 			})
 		case 15:
